@@ -41,7 +41,16 @@ ASSUMPTIONS = [
     "by classList and not modelled",
     "attribute insertion order is not part of the DOM that is compared (attributes are a map)",
 ]
-LEVEL_TEXT = "proof"
+LEVEL_TEXT = ("Unbounded Coq proof, over an executable Gallina transcription of tachys' Render::build / rebuild / mount / "
+              "unmount / insert_before_this for every combinator of the grammar (text and primitives, elements of any tag with "
+              "attributes, classes, class: toggles and styles, tuples, Either / EitherOf3 / Option, Vec, arrays, keyed lists via "
+              "C11's theorem, AnyView with type changes), that building A, mounting it between arbitrary siblings and rebuilding "
+              "with B — for any sequence of values — leaves exactly the children a fresh build of B produces, that retained nodes "
+              "keep their identity and that unmount removes exactly the view's nodes; StaticVec / node-less views and the "
+              "class:on-through-AnyView sub-case are refuted with witnesses and excluded by decidable predicates that the check's "
+              "classifier mirrors (open findings F-C03-ab, F-C03-c). Tied to /repo by running the extracted model and the real "
+              "views on the native in-memory DOM (cfg(leptos_verif)) on ~20 000 generated histories per run and comparing the "
+              "serialised children and node identities after every step, plus a fresh-render oracle computed by the real code.")
 LEVEL_NOTE = ("unbounded machine-checked proof (rebuild = fresh render, for every sibling context, nesting depth and "
               "history) for text (String, &str, i32), unit, elements (any tag: the model's element is parametric in the "
               "tag, as Render::build/rebuild of HtmlElement are on the client, so the raw-text elements textarea/style/"
